@@ -5,17 +5,21 @@ ID = "C18"
 
 PROP = {'lean_props': ['Comrak.Props.C18'],
  'lean_audit': ['Comrak.Audit.C18'],
- 'required_theorems': ['enter_sourcepos_only_adds', 'exit_sourcepos_only_adds', 'exit_independent_of_sourcepos', 'html_sourcepos_only_adds'],
- 'strength': 'full for HTML at token level (whole trees, every option vector); XML, CommonMark and the parser by the on/off oracle on real output',
+ 'required_theorems': ['enter_sourcepos_only_adds', 'exit_sourcepos_only_adds', 'exit_independent_of_sourcepos', 'html_sourcepos_only_adds',
+                       'xml_sourcepos_only_adds', 'xml_sourcepos_only_adds_bytes', 'cm_ignores_sourcepos', 'cm_ignores_positions'],
+ 'strength': 'full for HTML and XML at token level (whole trees, every option vector; XML also as bytes through spellXml) and structural for '
+             'CommonMark (its option record has no such field and the formatter never reads a position); the parser by the on/off oracle on real output',
  'trusted_base': ["recursive renderT/renderF stand for comrak's explicit work-stack traversal (exercised by the correspondence on deep and wide "
                   'trees, not proved)',
                   'anchor normalisation (Unicode lower-casing / category filter) is a parameter of the model; the harness supplies the real '
                   "Anchorizer's value per heading text"],
  'assumptions': ['the on/off oracle compares strip(on) with strip(off), so a literal data-sourcepos attribute inside passed-through raw HTML is not '
                  'blamed on the option',
-                 'XML and CommonMark formatters are not yet in the Lean model for this property: decided there by the oracle on real output only']}
+                 'XML: the verbatim payload of an EscapedTag node (XAttr.raw) is document data and is not touched by the erasure',
+                 'CommonMark: the model Cm.renderCm takes a record without a sourcepos field; that cm.rs reads no other option is tied by the '
+                 'C17/C07 correspondence of that model, and decided here by the on/off oracle on real output']}
 
-TEXT = {'text': "Proof. For the complete token-level model of html.rs, Lean proves for every option vector, normalisation table and tree of any depth and width that erasing the data-sourcepos attributes from the rendering with the option on gives exactly the rendering with the option off (html_sourcepos_only_adds), by per-node lemmas for all 41 kinds and a mutual induction in which the writer states of the two runs are shown equal after every step (last_was_lf is determined by the last byte written, which erasing an attribute never changes). The model is tied to format_html by byte-equality for both settings on every run; the XML, CommonMark and parser halves of the statement are decided on every run by the on/off oracle on the real format_xml, format_commonmark and parse_document over generated documents and directly built trees x random option vectors.",
+TEXT = {'text': "Proof. For the complete token-level model of html.rs, Lean proves for every option vector, normalisation table and tree of any depth and width that erasing the data-sourcepos attributes from the rendering with the option on gives exactly the rendering with the option off (html_sourcepos_only_adds), by per-node lemmas for all 41 kinds and a mutual induction in which the writer states of the two runs are shown equal after every step (last_was_lf is determined by the last byte written, which erasing an attribute never changes). For the token-level model of xml.rs (Comrak/Xml.lean) Lean proves the same for every tree (xml_sourcepos_only_adds; per start tag no other attribute is dropped, reordered or renamed; the formatter's only state, indent, does not depend on the option), its byte form through spellXml (xml_sourcepos_only_adds_bytes) and what exactly is inserted (xml_sourcepos_bytes_inserted). For the CommonMark model the option record has no sourcepos field (cm_ignores_sourcepos) and the output is the same for every assignment of positions to the nodes (cm_ignores_positions). The HTML model is tied to format_html by byte-equality for both settings on every run; the XML, CommonMark and parser halves of the statement are additionally decided on every run by the on/off oracle on the real format_xml, format_commonmark and parse_document over generated documents and directly built trees x random option vectors.",
         'note': "Trusted: Lean kernel + standard axioms; harness/driver; the tree-level lift needs equality of the two runs' writer states, exercised not "
          'proved.',
  'technique': 'Lean 4 per-node theorems (case analysis over 41 kinds) + differential correspondence + metamorphic on/off oracle on real output',
